@@ -617,6 +617,13 @@ func drawCase(t *rapid.T) *Case {
 	}
 	c.Kernel = rapid.SampledFrom([]int{kGauss, kEpan, kEpan, kGauss, kDelta}).Draw(t, "kernel")
 	c.BW = spread * gen.LogUniform(t, 0.02, 50, "bw")
+	if rapid.IntRange(0, 5).Draw(t, "roundBW") == 0 {
+		// a round bandwidth, 1 above all (the unit kernel is the natural fast path of an
+		// implementation), where it lies within the stated 0.02..50 spreads
+		if b := rapid.SampledFrom([]float64{1, 1, 0.5, 2, 0.25, 10, 0.1, 4}).Draw(t, "bwValue"); b >= 0.02*spread && b <= 50*spread {
+			c.BW = b
+		}
+	}
 	c.Cfg = rapid.SampledFrom([]int{3, 1, 2, 0, 3}).Draw(t, "cfg")
 	gap := func(label string) float64 {
 		if rapid.IntRange(0, 2).Draw(t, label+".touch") == 0 {
